@@ -482,6 +482,20 @@ func GetViaBrSig(viab []byte) (StrSigId, int) {
 	var next int
 	var err ErrorHdr
 
+	// only the first via of a comma separated list is looked at: cut the
+	// rest off, so that what follows the first via cannot change the way its
+	// parameters are parsed (e.g. "...;branch=x;, SIP/2.0/UDP h2;branch=y")
+	quoted := false
+	for i := 0; i < len(viab); i++ {
+		if c := viab[i]; quoted && c == '\\' {
+			i++ // skip over the escaped char
+		} else if c == '"' {
+			quoted = !quoted
+		} else if !quoted && c == ',' {
+			viab = viab[:i]
+			break
+		}
+	}
 	offs := bytes.IndexByte(viab, ';')
 	if offs == -1 {
 		return 0, 0 // no params
